@@ -51,7 +51,7 @@ HARNESS_BIN = "c09"
 NCASES = {"quick": 6000, "thorough": 150000}
 CASE_TIMEOUT = {"quick": 20, "thorough": 60}
 
-LEVEL_TEXT = ("Machine-checked Coq theorems (59 pinned, all closed under the global context), for every word size w > 0, every operand "
+LEVEL_TEXT = ("Machine-checked Coq theorems (90 pinned, all closed under the global context), for every word size w > 0, every operand "
               "length, sign, bit position and shift count: (1) the sign-case tables of & | ^ ! >> regenerated from the Rust source on "
               "every run equal Coq's infinite two's-complement operations on Z; (2) word-level as-is models (little-endian word lists, "
               "inline double word / heap buffer dispatch, Repr::from_buffer normalisation) of bitand_large / bitor_large / bitxor_large "
@@ -64,39 +64,72 @@ LEVEL_TEXT = ("Machine-checked Coq theorems (59 pinned, all closed under the glo
               "the regenerated tables; (4) bit (UBig and the two's-complement bit of a negative IBig), set_bit / clear_bit incl. spill "
               "to a longer buffer, clear_high_bits, split_bits, bit_len, count_ones, count_zeros, is_power_of_two, next_power_of_two "
               "(incl. overflow into a new word), UBig::ones, trailing_zeros, trailing_ones (incl. trailing_ones_neg and the "
-              "shifted-by-one scan) each equal their specification, which is characterised on Z.testbit. Every case of the "
-              "correspondence run is evaluated by the extracted word-level models at the 64-bit word size and compared with the "
-              "implementation's answer (model fidelity asis=same|diff, must be 100 %).")
-LEVEL_NOTE = ("Trusted: Coq kernel, translator dictionary (bitand->Z.land ...), extraction incl. FastZ.v directives, zarith, harness. "
-              "Proved about hand-written models of the kernels, tied to the code by the run (value of every answer; the models are "
-              "transcribed by hand from bits.rs / shift.rs / shift_ops.rs / math.rs / repr.rs). Machine-integer primitives (& | ^ ! << >> "
+              "shifted-by-one scan) each equal their specification, which is characterised on Z.testbit. "
+              "Round 3: (5) the typed view of a magnitude is CANONICAL (same value + representation invariant => the same Repr word for "
+              "word), hence every ownership arm (val/ref x val/ref) of & | ^, both Assign forms, x << n / &x << n / x << &n / x <<= n "
+              "(shifted in place or copied), the >> forms, set_bit / clear_bit / clear_high_bits / ones / next_power_of_two build "
+              "exactly to_brepr of the two's-complement result; (6) the primitive-operand forms (big OP prim, &big OP prim, prim OP big, "
+              "prim OP &big, &prim variants, OP= prim) as generated by impl_binop_with_primitive / impl_commutative_binop_with_primitive / "
+              "impl_binop_assign_with_primitive: <Big>::from(prim), the big operation with the ownership the macro arm passes, "
+              ".try_into().unwrap() return Z.land / Z.lor / Z.lxor of the operand values for EVERY primitive width, and the instances "
+              "that declare `-> $t` (table regenerated from bits.rs) are exactly `&` with an unsigned primitive, whose result always "
+              "fits - so no primitive form can panic; (7) the Small/Large dispatch of the 16 TypedRepr/TypedReprRef bit-operator impls, "
+              "regenerated from bits.rs on every run as Gallina functions, computes the two's-complement operation as a canonical Repr "
+              "for all four ownership combinations (proved directly over the generated definitions, tolerant of semantics-preserving "
+              "rewrites) and agrees with the hand-written dispatch; (8) capacities: the buffers the allocating kernels hand to "
+              "from_buffer (shl_one_spilled, shl_dword_spilled, shl_large_ref, with_bit_dword_spilled, with_bit_large) never exceed the "
+              "requests regenerated from the source (hence the capacity Buffer::allocate reserves), zero counts do not underflow, the "
+              "in-place test of shl_large is sufficient for push + push_zeros_front, and whenever C17's storage machine (proved never "
+              "to trip a capacity assertion) returns a Repr for << or set_bit, that Repr is word for word the C09 kernel's result. "
+              "Every case of the correspondence run is evaluated by the extracted word-level models at word sizes 16, 32 and 64 (value) "
+              "and, for the cases that report a layout, at the word size of the build under test - the default 64-bit build AND the "
+              "force_bits=\"32\" build - comparing inline/heap, length and capacity bounds of the real Repr (model fidelity "
+              "asis=same|diff, must be 100 %).")
+LEVEL_NOTE = ("Trusted: Coq kernel, translator dictionaries (tools/translate.py: bitand->Z.land ...; tools/translate_c09_r3.py: "
+              "Repr::from_dword / lowest_dword / *_large(_dword) / len comparisons rendered as the kernels of Int/BitsKernels.v), "
+              "extraction incl. FastZ.v directives, zarith, harness. Proved about hand-written models of the kernels, tied to the code "
+              "by the run (value of every answer at three word sizes, layout at the word size of each of two builds; the kernels are "
+              "transcribed by hand from bits.rs / shift.rs / shift_ops.rs / math.rs / repr.rs) and by the regenerated dispatch / "
+              "primitive table / form-macro arms / buffer requests. Machine-integer primitives (& | ^ ! << >> "
               "on Word/DoubleWord, leading_zeros, count_ones, trailing_zeros, is_power_of_two, checked_next_power_of_two) are modelled "
-              "by the Z function of the same meaning. Only compared, not modelled: the primitive-operand forms (UBig/IBig op u8..i128; proved only: `& unsigned primitive` always fits the primitive type), "
-              "the *Assign forms other than >>= / <<=, sub_one / add_one / Not / negation inside the IBig tables (value level; C01), "
-              "buffer capacities and which allocation is reused (not observable through values).")
-TECHNIQUE = "Coq proofs over source-regenerated sign tables and hand-transcribed word-level as-is models + extracted-model correspondence run"
-RULE = ("cases = operation x operands drawn from word-count classes {0,1,2,3,4,5,8,T-1,T,T+1 for the size thresholds} x "
-        "bit patterns {all-ones, 2^k, 2^k+-1, low words zero, top word 1/MAX, sparse, 0/MAX words, random} x both signs x "
-        "all four by-value/by-reference operand combinations; "
-        "bit positions / shift counts from {0, 1, multiples of the word size +-1, bit length +-1, up to length+130}. "
-        "A case is non-trivial when the oracle evaluated the Coq specification on it and at least one operand is non-zero; "
-        "distinct = distinct case texts.")
+              "by the Z function of the same meaning. Value level only (other properties' subject): <Big>::from(primitive) and TryFrom "
+              "(C06), sub_one / add_one / Not / negation inside the IBig tables (C01), the exact capacity field of heap results "
+              "(C17; the run checks len <= cap <= len + len/4 + 4).")
+TECHNIQUE = ("Coq proofs over source-regenerated sign tables, dispatch arms, primitive-instance table and buffer requests, and over "
+             "hand-transcribed word-level as-is models; canonical-representation theorem; refinement to C17's storage machine; "
+             "extracted-model correspondence run against a 64-bit and a 32-bit build")
+RULE = ("cases = operation x operands drawn from word-count classes {0,1,2,3,4,5,8,T-1,T,T+1 for the size thresholds} of 64-bit words and "
+        "{1..7} of 32-bit words x bit patterns {all-ones, 2^k, 2^k+-1, low words zero, top word 1/MAX, sparse, 0/MAX words, random} x "
+        "both signs x all four by-value/by-reference operand combinations x both Assign forms; primitive operands of every type "
+        "u8..u128/usize/i8..i128/isize in all ten forms (big OP prim, &big OP prim, big OP &prim, &big OP &prim, prim OP big, prim OP &big, "
+        "&prim OP big, &prim OP &big, OP= prim, OP= &prim); shifts by value / reference / &usize count / Assign; "
+        "bit positions / shift counts from {0, 1, multiples of 32 and 64 +-1, bit length +-1, up to length+130, the word index equal to "
+        "the buffer capacity}. Half of the big-valued cases also report the Repr layout. Every case runs against the default and the "
+        "force_bits=32 build. A case is non-trivial when the oracle evaluated the Coq specification on it and at least one operand is "
+        "non-zero; distinct = distinct case texts.")
 EXPLANATION = ("Theorems (coq/props/C09.v): the sign-case tables regenerated from bits.rs/shift_ops.rs equal Z.land/Z.lor/Z.lxor/"
                "Z.lnot/Z.shiftr for all signs and magnitudes; word-level models of every magnitude kernel (Int/BitsKernels.v) equal "
                "the Z operation / the BitsSpec specification for every word size and return normalised representations; the "
-               "specifications are characterised on Z.testbit. Tie to the code: tables are re-translated from the source on every "
-               "run; every case is also run through the extracted word-level models and compared with the implementation.")
+               "representation is canonical, so all ownership arms, Assign forms and primitive-operand forms (Int/BitsForms.v) build "
+               "the identical Repr / value; the dispatch arms, the primitive-instance table, the form-macro arms and the buffer requests "
+               "are re-translated from the source on every run (coq/gen/SignTables.v, coq/gen/BitsFormsGen.v) and the theorems are "
+               "proved over the generated definitions; the specifications are characterised on Z.testbit. Tie to the code: every case "
+               "is also run through the extracted word-level models (hand-written and regenerated dispatch) at three word sizes and "
+               "compared with the answers of a 64-bit and a 32-bit build, including the layout of the result.")
 TRUSTED_BASE = [
-    "Coq 8.16.1 kernel (coqc; vm_compute only in the non-vacuity Example of the word-level theorems)",
-    "tools/translate.py renders the macro bodies impl_ibig_bit*/Not/Shr faithfully; dictionary: bitand->Z.land, bitor->Z.lor, bitxor->Z.lxor, and_not->Z.ldiff, sub_one->Z.pred, add_one->Z.succ, >> on magnitudes -> Z.shiftr, are_low_bits_nonzero -> (m mod 2^n <> 0); the entries for bitand/bitor/bitxor/and_not/>>/are_low_bits_nonzero are now justified by theorems about the word-level models (C09_repr_bitand ... C09_are_low_bits_nonzero), sub_one/add_one belong to C01",
-    "coq/theories/Int/BitsKernels.v is a faithful hand transcription of the kernels of integer/src/bits.rs, shift.rs, shift_ops.rs (mod repr), math.rs (ones_word, ones_dword, shl_dword, shr_word) and repr.rs (from_buffer, ones); machine-integer primitives are modelled by the Z function of the same meaning; checked on every run by comparing the extracted models with the implementation on every case (asis=same|diff)",
+    "Coq 8.16.1 kernel (coqc; vm_compute only in the non-vacuity Examples of the word-level theorems)",
+    "tools/translate.py renders the macro bodies impl_ibig_bit*/Not/Shr faithfully; dictionary: bitand->Z.land, bitor->Z.lor, bitxor->Z.lxor, and_not->Z.ldiff, sub_one->Z.pred, add_one->Z.succ, >> on magnitudes -> Z.shiftr, are_low_bits_nonzero -> (m mod 2^n <> 0); the entries for bitand/bitor/bitxor/and_not/>>/are_low_bits_nonzero are justified by theorems about the word-level models (C09_repr_bitand ... C09_are_low_bits_nonzero), sub_one/add_one belong to C01",
+    "tools/translate_c09_r3.py renders the 16 TypedRepr bit-operator impls, the impl_bit_ops_* instance lists, the operand handling of the helper_macros.rs form macros / impl_shifts and the Buffer::allocate / ensure_capacity arguments faithfully (tiny grammar; anything else is reported `unparsed`, the last good copy stays and the run alone ties the models)",
+    "coq/theories/Int/BitsKernels.v is a faithful hand transcription of the kernels of integer/src/bits.rs, shift.rs, shift_ops.rs (mod repr), math.rs (ones_word, ones_dword, shl_dword, shr_word) and repr.rs (from_buffer, ones); coq/theories/Int/BitsForms.v of the operator-form macros; machine-integer primitives are modelled by the Z function of the same meaning; checked on every run by comparing the extracted models with the implementation on every case (asis=same|diff)",
     "extraction: ExtrOcamlBasic + ExtrOcamlZBigInt + the Extract Constant directives of coq/extract/FastZ.v (Z.land/lor/lxor/ldiff/lnot/testbit/log2/... -> zarith)",
-    "OCaml 4.13.1 + zarith 1.12, oracle/common.ml, oracle/driver_c09.ml; Rust harness harness/src/bin/c09.rs",
-    "the oracle runs the word-level models at w = 64 only (the harness build's word size); other word sizes are covered by the theorems (universally quantified w) and by C19's builds",
+    "OCaml 4.13.1 + zarith 1.12, oracle/common.ml, oracle/driver_c09.ml; Rust harness harness/src/bin/c09.rs; verif_hooks::repr_layout_ubig/ibig and WORD_BITS report the layout of a result",
+    "the oracle runs the word-level models at w = 16, 32, 64 for the value of every answer and at the word size of the build (64 and 32) for the layout; a 16-bit build is not run (no such CONFIGS entry), w = 16 is covered by the theorems (universally quantified w) and by the value comparison",
+    "C17's storage machine coq/theories/Int/StorageModel.v (definitions only) is used as the statement of the capacity discipline in C09_shl_machine_is_kernel / C09_set_bit_machine_is_kernel / C09_bit_kernel_requests_suffice",
 ]
 ASSUMPTIONS = [
     "UBig::from_words / as_words / IBig::from_parts / as_sign_words transport values faithfully (used by the harness instead of any parser)",
     "usize shift counts and bit indices stay below 2^32 in generated cases (memory)",
+    "usize / isize are 64 bits wide on the machine that runs the harness (also for the force_bits=32 build); the theorems hold for any width",
 ]
 
 
@@ -115,6 +148,10 @@ def positions(rng, a):
     if nb > 64:
         c += [64 * rng.range(1, nb // 64), 64 * rng.range(1, nb // 64) + rng.choice([-1, 1]), rng.below(nb),
               32 * rng.range(1, nb // 32), 32 * rng.range(1, nb // 32) + rng.choice([-1, 1])]
+    # the word index that equals the capacity Buffer::allocate gives a value of this length (set_bit beyond the buffer)
+    for wb in (64, 32):
+        nw = (nb + wb - 1) // wb
+        c += [wb * (nw + nw // 8 + 2) + rng.below(wb), wb * (nw + nw // 8 + 2 + rng.choice([-1, 1]))]
     # position of the lowest set bit and its neighbours
     if a != 0:
         tz = (abs(a) & -abs(a)).bit_length() - 1
